@@ -1,2 +1,165 @@
-/- driver stub for C20: replaced when the model exists -/
-def main : IO Unit := pure ()
+/- driver for C20: schedule matchers, evaluation and the interpreter task -/
+import BacVerif.Drv.Common
+import BacVerif.Model.Schedule
+open Lean BacVerif BacVerif.Drv BacVerif.Sched
+
+def natList (j : Json) : R (List Nat) := do (← j.getArr?).toList.mapM (·.getNat?)
+
+def dateOfJson (j : Json) : R Date := do
+  match ← natList j with
+  | [y, m, d, w] => pure ⟨y, m, d, w⟩
+  | _ => throw "date: need 4 numbers"
+
+def timeOfJson (j : Json) : R Time := do
+  match ← natList j with
+  | [h, mi, s, hs] => pure ⟨h, mi, s, hs⟩
+  | _ => throw "time: need 4 numbers"
+
+def jDate (d : Date) : Json := Json.arr #[d.y, d.m, d.d, d.w]
+def jTime (t : Time) : Json := Json.arr #[t.h, t.mi, t.s, t.hs]
+def sErr (e : SErr) : Json := Json.mkObj [("r", "err"), ("k", e.name)]
+
+def valOfJson : Json → R Val
+  | .null => pure .null
+  | j => do pure (.v (← j.getNat?))
+
+def tvOfJson (j : Json) : R TV := do
+  let a ← j.getArr?
+  if a.size ≠ 2 then throw "tv: need [time, value]"
+  pure ⟨← timeOfJson a[0]!, ← valOfJson a[1]!⟩
+
+def tvsOfJson (j : Json) : R (List TV) := do (← j.getArr?).toList.mapM tvOfJson
+
+def entryOfJson (j : Json) : R CalEntry := do
+  match ← fldStr j "k" with
+  | "date" => pure (.date (← dateOfJson (← fld j "p")))
+  | "range" => pure (.range (← dateOfJson (← fld j "s")) (← dateOfJson (← fld j "e")))
+  | "wnd" =>
+    match ← natList (← fld j "v") with
+    | [a, b, c] => pure (.weekNDay a b c)
+    | _ => throw "wnd: need 3 numbers"
+  | "empty" => pure .empty
+  | k => throw s!"entry kind {k}"
+
+def periodOfJson (j : Json) : R Period := do
+  match ← fldStr j "k" with
+  | "entry" => pure (.entry (← entryOfJson (← fld j "e")))
+  | "ref" =>
+    match fldOpt j "l" with
+    | none => pure (.ref none)
+    | some l => pure (.ref (some (← (← l.getArr?).toList.mapM entryOfJson)))
+  | "missing" => pure .missing
+  | k => throw s!"period kind {k}"
+
+def seOfJson (j : Json) : R SpecialEvent := do
+  pure { period := ← periodOfJson (← fld j "p"), tvs := ← tvsOfJson (← fld j "tv"),
+         prio := ← fldNat j "prio" }
+
+def cfgOfJson (j : Json) : R Cfg := do
+  let eff ← fldArr j "eff"
+  if eff.size ≠ 2 then throw "eff: need 2 dates"
+  let weekly ← match fldOpt j "weekly" with
+    | none => pure none
+    | some w => do pure (some (← (← w.getArr?).toList.mapM tvsOfJson))
+  let exc ← match fldOpt j "exc" with
+    | none => pure none
+    | some x => do pure (some (← (← x.getArr?).toList.mapM seOfJson))
+  let fault := match fldBool j "fault" with | .ok b => b | .error _ => false
+  pure { effStart := ← dateOfJson eff[0]!, effEnd := ← dateOfJson eff[1]!,
+         weekly := weekly, exc := exc, dflt := ← fldNat j "def", fault := fault }
+
+def jBoolRes : Except SErr Bool → Json
+  | .ok b => jOk [("v", b)]
+  | .error e => sErr e
+
+def jEval : Except SErr (Option (Nat × Time)) → Json
+  | .error e => Json.mkObj [("err", e.name)]
+  | .ok none => Json.null
+  | .ok (some (v, n)) => Json.arr #[v, n.h, n.mi, n.s, n.hs]
+
+/-- all days of year 1900+y by the model's own calendar -/
+def daysOfYear (y : Nat) : List Date :=
+  let first : Date := ⟨y, 1, 1, dowOf (dayNum y 1 1)⟩
+  let rec go : Nat → Date → List Date
+    | 0, _ => []
+    | f + 1, d => if d.y = y then d :: go f (succDay d) else []
+  go 400 first
+
+def bitOf : Except SErr Bool → Char
+  | .ok true => '1' | .ok false => '0' | .error _ => 'e'
+
+def jStep (kind : String) (t : Nat) (r : IState × Option SErr) : Json :=
+  Json.arr #[kind, t, r.1.pv, jNatOpt r.1.deadline,
+    match r.2 with | none => Json.null | some e => Json.str e.name]
+
+/-- timer firings interleaved with configuration writes; a firing due at the
+    instant of a write runs first -/
+def runMixed : Nat → Cfg → IState → List (Nat × Cfg) → Nat → List Json
+  | 0, _, _, _, _ => []
+  | fuel + 1, cfg, st, chg, until_ =>
+    let fireAt : Option Nat := match st.deadline with
+      | some w => if w ≤ until_ then some w else none
+      | none => none
+    match chg with
+    | (tc, cfg') :: more =>
+      match fireAt with
+      | some w =>
+        if w ≤ tc then
+          let r := fire cfg st w
+          jStep "fire" w r :: runMixed fuel cfg r.1 chg until_
+        else
+          let r := scheduleChanged cfg' st tc
+          jStep "chg" tc r :: runMixed fuel cfg' r.1 more until_
+      | none =>
+        if tc ≤ until_ then
+          let r := scheduleChanged cfg' st tc
+          jStep "chg" tc r :: runMixed fuel cfg' r.1 more until_
+        else []
+    | [] =>
+      match fireAt with
+      | some w =>
+        let r := fire cfg st w
+        jStep "fire" w r :: runMixed fuel cfg r.1 [] until_
+      | none => []
+
+def handle (j : Json) : R Json := do
+  match ← fldStr j "op" with
+  | "md" =>
+      pure (jBoolRes (matchDate (← dateOfJson (← fld j "d")) (← dateOfJson (← fld j "p"))))
+  | "entry" =>
+      pure (jBoolRes (dateInEntry (← dateOfJson (← fld j "d")) (← entryOfJson (← fld j "e"))))
+  | "year" =>    -- one calendar entry against every day of a year
+      let y ← fldNat j "y"
+      let e ← entryOfJson (← fld j "e")
+      pure (jOk [("bits", String.ofList ((daysOfYear y).map fun d => bitOf (dateInEntry d e)))])
+  | "cal" =>     -- the model's calendar of a year
+      let y ← fldNat j "y"
+      pure (jOk [("first", dayNum y 1 1), ("leap", isLeap y),
+                 ("days", Json.arr ((daysOfYear y).map fun d => Json.arr #[d.m, d.d, d.w]).toArray)])
+  | "now" =>     -- Date.now / Time.now
+      let t ← fldNat j "t"
+      pure (jOk [("d", jDate (dateOf t)), ("t", jTime (timeOf t))])
+  | "dt" =>      -- datetime_to_time
+      match datetimeToTime (← dateOfJson (← fld j "d")) (← timeOfJson (← fld j "t")) with
+      | .ok w => pure (jOk [("v", w)])
+      | .error e => pure (sErr e)
+  | "evalday" => -- eval at many times of one day
+      let cfg ← cfgOfJson (← fld j "cfg")
+      let d ← dateOfJson (← fld j "d")
+      let ts ← (← fldArr j "times").toList.mapM timeOfJson
+      pure (jOk [("res", Json.arr (ts.map fun t => jEval (evalSchedule cfg d t)).toArray)])
+  | "run" =>     -- created at `start` (deferred process_task), then timer/writes until `until`
+      let cfg ← cfgOfJson (← fld j "cfg")
+      let start ← fldNat j "start"
+      let until_ ← fldNat j "until"
+      let pv0 ← fldNat j "pv0"
+      let chg ← (← fldArr j "changes").toList.mapM fun c => do
+        let a ← c.getArr?
+        if a.size ≠ 2 then throw "change: need [t, cfg]"
+        pure ((← a[0]!.getNat?), (← cfgOfJson a[1]!))
+      let r0 := processTask cfg { pv := pv0, deadline := none } start
+      pure (jOk [("steps", Json.arr
+        (jStep "init" start r0 :: runMixed (← fldNat j "fuel") cfg r0.1 chg until_).toArray)])
+  | op => throw s!"unknown op {op}"
+
+def main : IO Unit := loop handle
